@@ -11,3 +11,4 @@ for p in "$@"; do
   echo "$out" | grep -E "^VIOLATION|^  " | head -4
 done
 git -C /repo checkout -- . ; git -C /repo status --short | head -3
+git -C /verif checkout -- evidence 2>/dev/null
